@@ -14,7 +14,10 @@ Lemma Gen_tls_ok :
   tls_verify_cert_accessor = CURRENT_CERT /\
   tls_proceed_failure_calls = expected_proceed_failure_calls /\
   tls_legacy_failure_calls = expected_legacy_failure_calls /\
-  tls_domain_written_in = expected_domain_writers.
+  tls_domain_written_in = expected_domain_writers /\
+  tls_set_handler_unconditional = true /\
+  tls_time_overrides = 0 /\
+  tls_secured_only_after_start = true.
 Proof. vm_compute. repeat split; reflexivity. Qed.
 
 Lemma verify_setting_eq : forall t, verify_setting t = if t then (SSL_VERIFY_NONE, 0) else (SSL_VERIFY_PEER, 1).
@@ -27,7 +30,7 @@ Proof. destruct t; reflexivity. Qed.
 Definition new_ok (sc : scenario) : bool :=
   s_ssl_ok sc && (if s_cafile sc || s_capath sc then s_ca_ok sc else true).
 Definition the_cfg (sc : scenario) : sslcfg :=
-  mkCfg (if s_trust sc then 0 else 1) (if s_trust sc then 0 else 1) 4 true (s_cafile sc || s_capath sc).
+  mkCfg (if s_trust sc then 0 else 1) (if s_trust sc then 0 else 1) 4 true (s_cafile sc || s_capath sc) true.
 
 Lemma tls_new_eq : forall sc, tls_new sc = if new_ok sc then Some (the_cfg sc) else None.
 Proof.
@@ -205,6 +208,12 @@ Proof.
     destruct (v =? 0) eqn:Hv; [reflexivity|]. cbn. now apply accepted_all_const_tail.
 Qed.
 
+(* the handler set last is the one in force *)
+Lemma effective_cb_eq : forall sc, effective_cb sc = s_cb sc.
+Proof.
+  intros sc. unfold effective_cb. rewrite fold_left_app. cbn. reflexivity.
+Qed.
+
 (* ---------------------------------------------------------------- tls_start *)
 Definition start_ok (sc : scenario) : bool :=
   s_hs_ok sc && (s_trust sc || accepted_all (s_cb sc) (s_stream sc) 0).
@@ -212,7 +221,7 @@ Definition start_ok (sc : scenario) : bool :=
 Lemma tls_start_eq : forall sc,
   exists evs n', tls_start (the_cfg sc) sc 0 = (start_ok sc, evs, n') /\ quiet evs.
 Proof.
-  intros sc. unfold tls_start, start_ok.
+  intros sc. unfold tls_start, start_ok. rewrite effective_cb_eq.
   destruct (ssl_verify (the_cfg sc) (s_cb sc) (s_stream sc) 0) as [[vok evs] n'] eqn:E.
   exists evs, n'. destruct (s_trust sc) eqn:Ht.
   - pose proof (ssl_verify_nocb (the_cfg sc) (s_cb sc) (s_stream sc) 0) as Q.
@@ -539,7 +548,7 @@ Qed.
 Lemma host_pinned : forall sc cfg,
   tls_new sc = Some cfg ->
   v_host cfg = true /\ v_hostflags cfg = X509_CHECK_FLAG_NO_PARTIAL_WILDCARDS /\
-  v_ca cfg = (s_cafile sc || s_capath sc).
+  v_ca cfg = (s_cafile sc || s_capath sc) /\ v_clock cfg = true.
 Proof.
   intros sc cfg H. rewrite tls_new_eq in H. destruct (new_ok sc); [|discriminate].
   injection H as <-. repeat split.
@@ -572,11 +581,11 @@ Proof.
   apply in_map with (f := fun ca => mkCell k m e ca). destruct ca; cbn; tauto.
 Qed.
 
-Lemma cell_start_ok : forall c mand stream hs te after,
+Lemma cell_start_ok : forall c before mand stream hs te after,
   stream_consistent c stream ->
-  start_ok (cell_scenario c mand stream hs te after) = hs && table_secured c.
+  start_ok (cell_scenario c before mand stream hs te after) = hs && table_secured c.
 Proof.
-  intros c mand stream hs te after Hc. unfold start_ok, cell_scenario, table_secured. cbn [s_hs_ok s_trust s_cb s_stream].
+  intros c before mand stream hs te after Hc. unfold start_ok, cell_scenario, table_secured. cbn [s_hs_ok s_trust s_cb s_stream].
   f_equal. unfold stream_consistent in Hc.
   destruct (cert_verifies c) eqn:Hv.
   - rewrite accepted_all_no_fail by assumption. cbn. now rewrite orb_true_r.
@@ -587,17 +596,17 @@ Proof.
     + rewrite accepted_all_const by assumption. reflexivity.
 Qed.
 
-Lemma decision_table : forall c mand stream hs te after,
+Lemma decision_table : forall c before mand stream hs te after,
   In c all_cells -> stream_consistent c stream ->
-  let tr := snd (run (cell_scenario c mand stream hs te after)) in
+  let tr := snd (run (cell_scenario c before mand stream hs te after)) in
   connect_secured tr = hs && table_secured c /\
   ever_secured tr = hs && table_secured c /\
   tls_wire_used tr = hs && table_secured c /\
   n_disconnects tr = 1%nat.
 Proof.
-  intros c mand stream hs te after _ Hc tr. subst tr.
-  set (sc := cell_scenario c mand stream hs te after).
-  pose proof (cell_start_ok c mand stream hs te after Hc) as Hok. fold sc in Hok.
+  intros c before mand stream hs te after _ Hc tr. subst tr.
+  set (sc := cell_scenario c before mand stream hs te after).
+  pose proof (cell_start_ok c before mand stream hs te after Hc) as Hok. fold sc in Hok.
   assert (Hn : new_ok sc = true) by (unfold new_ok, sc, cell_scenario; cbn; destruct (k_ca c); reflexivity).
   destruct (run_ends sc) as [Hd _].
   destruct (run_shape sc) as [Hn' Hs Hsec Htr | evs Hn' Hok' Hq Hs Hsec Htr | evs Hn' Hok' Hq Hs Hsec Htl Hif Htr]; [congruence| |].
@@ -640,9 +649,9 @@ Qed.
 
 Lemma decision_table_full :
   length all_cells = 112%nat /\ (forall c, In c all_cells) /\
-  forall c mand stream hs te after,
+  forall c before mand stream hs te after,
     In c all_cells -> stream_consistent c stream ->
-    let tr := snd (run (cell_scenario c mand stream hs te after)) in
+    let tr := snd (run (cell_scenario c before mand stream hs te after)) in
     connect_secured tr = hs && table_secured c /\
     ever_secured tr = hs && table_secured c /\
     tls_wire_used tr = hs && table_secured c /\
@@ -651,7 +660,7 @@ Proof. split; [exact all_cells_112|split; [exact all_cells_complete|exact decisi
 
 (* ---------------------------------------------------------------- the hypotheses of the theorems are satisfiable *)
 Definition ex_sc (trust : bool) (cb : cbk) (e : entry) (stream : list (Z * Z)) : scenario :=
-  mkScenario trust true false cb e false true true stream true 1 PeerCloses.
+  mkScenario trust true false [] cb e false true true stream true 1 PeerCloses.
 
 Example ex_secured_by_verification :
   let sc := ex_sc false CbNone EStartTls [(1, 1); (1, 0)] in
@@ -677,13 +686,19 @@ Example ex_rejecting_callback :
   nth_error (failing_certs (s_stream sc)) 0 = Some 1 /\ user_says (s_cb sc) 0 1 = Some 0 /\ In (OTlsStart false) (snd (run sc)).
 Proof. cbn. repeat split. tauto. Qed.
 Example ex_failed_handshake_silent_peer :
-  In (OTlsStart false) (snd (run (mkScenario false true false CbNone EStartTls false true true [] false 5 PeerSilent))).
+  In (OTlsStart false) (snd (run (mkScenario false true false [] CbNone EStartTls false true true [] false 5 PeerSilent))).
 Proof. cbn. tauto. Qed.
 Example ex_unusable_ca :
-  let sc := mkScenario false true false CbNone ELegacy true true false [] true 0 PeerCloses in
+  let sc := mkScenario false true false [] CbNone ELegacy true true false [] true 0 PeerCloses in
   (s_cafile sc || s_capath sc) = true /\ s_ca_ok sc = false /\ tls_new sc = None.
 Proof. repeat split. Qed.
 Example ex_cell_consistent :
   stream_consistent (mkCell KExpired MCallbackAccepts ELegacy true) [(1, 1); (0, 0); (1, 0)] /\
   stream_consistent (mkCell KValid MNoCallback EStartTls true) [(1, 1); (1, 0)].
 Proof. split; cbn; [exists (0, 0); split; [tauto|discriminate]|repeat constructor]. Qed.
+
+(* an accept-all handler that was removed again has no say: same run as if it had never been installed *)
+Example ex_removed_handler :
+  let sc := mkScenario false true false [CbScript [] 1] CbNone EStartTls false true true [(0, 0)] true 1 PeerCloses in
+  effective_cb sc = CbNone /\ ever_secured (snd (run sc)) = false.
+Proof. split; reflexivity. Qed.
